@@ -1103,6 +1103,11 @@ func loopFacts1(L *Lin, g *Gate, s *Summary, fn *ssa.Function) {
 					break
 				}
 				p := s.Env[ph]
+				if p != nil && p.Op == "loopphi" {
+					if _, isSlice := ph.Type().Underlying().(*types.Slice); isSlice {
+						accumFacts(L, u, s, l, ph, p)
+					}
+				}
 				if p == nil || p.Op != "loopphi" || !isIntLike(p) {
 					continue
 				}
@@ -1172,6 +1177,17 @@ func loopFacts1(L *Lin, g *Gate, s *Summary, fn *ssa.Function) {
 					}
 					for _, v := range u.bdd.Support(cont) {
 						at := u.atoms[v]
+						// p+k < B (range form: 1+p < len): steps of one under the guard keep p+k <= B
+						if at.Op == "lt" && at.Args[0] != p && u.bdd.Implies(cont, u.bdd.Var(v)) && stepsByOne(l, ph) {
+							if k, ok := constDiff(u, at.Args[0], p, p); ok && !u.Mentions(at.Args[1], func(x *E) bool { return x == p }) {
+								B := at.Args[1]
+								li := L.linearize(inits[0])
+								li.k.Add(li.k, new(big.Rat).SetInt64(k))
+								if L.entails(li, L.linearize(B), 0) {
+									L.leE(at.Args[0], B, 0)
+								}
+							}
+						}
 						isLt := at.Op == "lt" && at.Args[0] == p && u.bdd.Implies(cont, u.bdd.Var(v))
 						isNe := at.Op == "eq" && (at.Args[0] == p || at.Args[1] == p) && u.bdd.Implies(cont, u.bdd.Not(u.bdd.Var(v))) && stepsByOne(l, ph)
 						if (isLt || isNe) && !u.Mentions(otherArg(at, p), func(x *E) bool { return x == p }) {
@@ -1369,4 +1385,96 @@ func stepsByOne(l *Loop, ph *ssa.Phi) bool {
 		}
 	}
 	return true
+}
+
+// accumFacts: a slice q carried by a loop whose position p advances by exactly
+// one per iteration, and which in every iteration stays as it is or grows by at
+// most n appended elements, satisfies len(q) - len(q0) <= n * (p - p0).
+func accumFacts(L *Lin, u *U, s *Summary, l *Loop, ph *ssa.Phi, q *E) {
+	var init *E
+	maxAdd := int64(0)
+	for i, pr := range l.Header.Preds {
+		v := s.Env[ph.Edges[i]]
+		if v == nil {
+			if cv, ok := ph.Edges[i].(*ssa.Const); ok && cv.Value == nil {
+				v = u.mk("nil", "", ph.Type())
+			} else {
+				return
+			}
+		}
+		if !l.Blocks[pr] {
+			if init != nil && init != v {
+				return
+			}
+			init = v
+			continue
+		}
+		for leaf := range u.Leaves(v) {
+			switch {
+			case leaf == q:
+			case leaf.Op == "append" && leaf.Aux == "elems" && leaf.Args[0] == q:
+				if n := int64(len(leaf.Args) - 1); n > maxAdd {
+					maxAdd = n
+				}
+			default:
+				return
+			}
+		}
+	}
+	if init == nil || maxAdd == 0 || maxAdd > 4 {
+		return
+	}
+	// the position: an integer φ of the same header that steps by one on every latch
+	for _, in := range l.Header.Instrs {
+		ip, ok := in.(*ssa.Phi)
+		if !ok {
+			break
+		}
+		p := s.Env[ip]
+		if p == nil || p.Op != "loopphi" || !isIntLike(p) || !stepsExactlyOne(l, ip) {
+			continue
+		}
+		var p0 *E
+		okInit := true
+		for i, pr := range l.Header.Preds {
+			if l.Blocks[pr] {
+				continue
+			}
+			v := s.Env[ip.Edges[i]]
+			if v == nil {
+				if cv, isC := ip.Edges[i].(*ssa.Const); isC && cv.Value != nil {
+					v = u.ConstVal(cv.Value, cv.Type())
+				}
+			}
+			if v == nil || (p0 != nil && p0 != v) || v.Op == "ite" {
+				okInit = false
+			}
+			p0 = v
+		}
+		if !okInit || p0 == nil {
+			continue
+		}
+		// len(q) - len(init) - maxAdd*p + maxAdd*p0 <= 0
+		c := L.linearize(u.Len(q))
+		c.addScaled(L.linearize(u.Len(init)), new(big.Rat).SetInt64(-1))
+		c.addScaled(L.linearize(p), new(big.Rat).SetInt64(-maxAdd))
+		c.addScaled(L.linearize(p0), new(big.Rat).SetInt64(maxAdd))
+		L.le(c, newLin(), 0)
+		return
+	}
+}
+
+func stepsExactlyOne(l *Loop, ph *ssa.Phi) bool {
+	n := 0
+	for i, pr := range l.Header.Preds {
+		if !l.Blocks[pr] {
+			continue
+		}
+		n++
+		st, ok := stepOf(ph.Edges[i], ph)
+		if !ok || st != 1 {
+			return false
+		}
+	}
+	return n > 0
 }
